@@ -21,7 +21,7 @@ fn mk_not(state: u8, x: u8) -> Not<MockFeed> {
 }
 
 //@ob C16.feed.Not.empty
-//@ props: C16 C13 C20 C05
+//@ props: C16 C13 C20 C15 C05
 //@ kind: complete
 //@ stub: regex::Regex::is_match=is_match_stub
 //@ fns: src/walk/mod.rs::Not::feed src/walk/mod.rs::Not::cancel_walk_tree src/walk/glob.rs::FilterAny::residue src/walk/glob.rs::FilterAnyProgram::residue
